@@ -258,7 +258,8 @@ func c10Case(r *evid.Run, tier string, idx int, g *rng.R) {
 	d, evs := c10Doc(g, tier)
 	maxExcess, samples := 0, 0
 	var worst string
-	p := &adoc.Scripted{Evs: evs}
+	p := &adoc.Scripted{Evs: evs, EndNodes: g.Intn(4)}
+	r.Tab("end_event_payload", []string{"nil", "the start node", "a separate end-tag value", "a text node"}[p.EndNodes], 1)
 	every := 1 + len(evs)/64
 	p.OnPull = func(i int, ev *adoc.Event) {
 		if i%every != 0 && ev != nil {
